@@ -5050,6 +5050,8 @@ class Symbol:
                             f"{escape(self.name_and_loc)} (by {escape(src.name_and_loc)}) "
                             f"is not a valid base {base} number."
                         )
+                        # the ignored value forces nothing (do not keep the flag of an earlier evaluation)
+                        self._has_active_indirect_set = False
                     break
             else:
                 self._has_active_indirect_set = False
@@ -5212,6 +5214,8 @@ class Symbol:
                             f"indirectly set value {candidate_val.str_value} on "
                             f"{escape(self.name_and_loc)} (by {escape(src.name_and_loc)}) is not a valid float."
                         )
+                        # the ignored value forces nothing (do not keep the flag of an earlier evaluation)
+                        self._has_active_indirect_set = False
                     break
             else:
                 self._has_active_indirect_set = False
